@@ -5,5 +5,7 @@ package parser
 // VerifLexerStateCount reports the number of entries in the process-global
 // lexer state map (verification builds only).
 func VerifLexerStateCount() int {
-	return lexerStates.Len()
+	n := 0
+	lexerStates.Range(func(_, _ interface{}) bool { n++; return true })
+	return n
 }
